@@ -10,9 +10,30 @@ Theorem C19_line_col : forall (query : str) (off : nat), (off <= length query)%n
 Proof. exact position_is_line_col. Qed.
 Print Assumptions C19_line_col.
 
-(* Full statement of the other half (NOT proved; decided by the correspondence of error offsets and by the
-   range test on every rejected input in the check):
-     C19_offset_in_text : forall cfg s c o, m_compile cfg s = Err c o -> exists i, o = Some i /\ 0 <= i <= zlen s *)
+(* The other half: whenever compile() raises a JSONPathError - from the lexer's state machine, from tokenize()
+   (error token, unbalanced bracket) or from any of the parser's functions - the error carries an offset i with
+   0 <= i <= len(text).  Proofs/LexInv.v: in every reachable lexer state the consumed / pending / remaining parts
+   partition the text at the recorded offsets and every token holds the slice of the text at its index.
+   Proofs/ParseInv.v: the push-back token stream never holds more than one pushed token between parser steps, none
+   where a token is pushed back, and ends with the lexer's EOF token, so the synthetic EOF token of
+   TokenStream.close() (index -1) never becomes current and every error index is the index of a real token. *)
+From JP Require Import Model.Tokens Model.Ast Model.Api Proofs.CompileOffsets.
+Theorem C19_offset_in_text : forall cfg text c o, m_compile cfg text = Err c o -> exists i, o = Some i /\ 0 <= i <= zlen text.
+Proof. exact compile_offset_in_text. Qed.
+Print Assumptions C19_offset_in_text.
+
+(* the hypothesis is met: three rejected texts, the error raised by the lexer, by tokenize() and by the parser *)
+Definition c19_cfg : envcfg := {| min_idx := -9; max_idx := 9; max_depth := 100; reg := Model.Ast.builtin_registry; rx := fun _ _ _ => false |}.
+Example C19_offset_examples :
+  m_compile c19_cfg [36; 46; 46]%N = Err ESyntax (Some 3)                                        (* "$.."  : lexer *)
+  /\ m_compile c19_cfg [36; 91; 49]%N = Err ESyntax (Some 3)                                     (* "$[1"  : error token at the end *)
+  /\ m_compile c19_cfg [36;91;63;64;46;97;61;61;10;32;48;49;93]%N = Err ESyntax (Some 10).       (* parser: bad literal on line 2 *)
+Proof. repeat split; vm_compute; reflexivity. Qed.
+
+Theorem C19_tokens_are_slices : forall text toks, m_tokenize text = Ok toks ->
+  Forall (fun t => exists a b, text = a ++ tval t ++ b /\ zlen a = tidx t) toks.
+Proof. exact tokens_are_slices. Qed.
+Print Assumptions C19_tokens_are_slices.
 
 Example C19_example :   (* "$[?@.a==\n 01]" : the bad literal is at offset 10 = line 2, column 1 *)
   m_position [36;91;63;64;46;97;61;61;10;32;48;49;93]%N 10 = (2, 1).
